@@ -268,7 +268,7 @@ impl ProfibusPhy for HPhy {
     where
         F: FnOnce(&mut [u8]) -> (usize, R),
     {
-        let mut buffer = vec![0u8; 256];
+        let mut buffer = vec![0xA5u8; 256];
         let (length, res) = f(&mut buffer);
         buffer.truncate(length);
         self.bus.borrow_mut().transmit(self.idx, now.total_micros(), &buffer);
